@@ -101,6 +101,34 @@ theorem raire_optimal_total (asn : Nat → Nat → Nat → Nat → D) (C : Conte
   obtain ⟨g1, g2⟩ := raire_optimal asn C cvrs winner hC hn fuel as h hne m hm
   exact ⟨as, m, h, g1, hm, g2⟩
 
+/-- **What C15 becomes with a positive allowed gap** (outside the property's "zero allowed gap", stated so
+that nobody assumes more): for every `agap` test `gap` that is false at `inf`, a non-empty result of
+`computeRaireAssertionsG gap` is a competing set, and EITHER its largest difficulty is the least possible (the
+search ended normally), OR the test `gap mx l` was true of an upper bound `mx` of every returned difficulty and
+a value `l` that every competing set's largest difficulty reaches. For the Python test `mx - l <= agap` that
+is: the largest returned difficulty exceeds the optimum by at most `agap`. -/
+theorem raire_near_optimal_gap (gap : Diff D → Diff D → Bool) (hgap : GapOK gap)
+    (asn : Nat → Nat → Nat → Nat → D) (C : Contest α) (cvrs : List (Option (Ballot α)))
+    (winner : α) (hC : C.candidates.Nodup) (hn : 2 ≤ C.candidates.length) (fuel : Nat)
+    (as : List (Assertion α D)) (h : computeRaireAssertionsG gap asn C cvrs winner fuel = Res.ok as)
+    (hne : as ≠ []) :
+    Competing asn C cvrs winner as ∧
+    ((∀ S m', Competing asn C cvrs winner S → IsMaxDiff S m' →
+        ∀ a ∈ as, DiffOrd.le a.difficulty m' = true) ∨
+     ∃ mx l, gap mx l = true ∧ (∀ a ∈ as, Diff.le (Diff.fin a.difficulty) mx = true) ∧
+        ∀ S m', Competing asn C cvrs winner S → IsMaxDiff S m' → Diff.le l (Diff.fin m') = true) := by
+  refine ⟨(computeG_spec asn C cvrs winner hgap hC hn h).2 hne, ?_⟩
+  rcases computeG_near_opt asn C cvrs winner hgap hC hn h hne with hopt | ⟨mx, l, hg, hl, hmx⟩
+  · left
+    intro S m' hS hm' a ha
+    obtain ⟨b, hb, hle⟩ := hopt a ha S hS.1 hS.2
+    exact DiffOrd.Lawful.le_trans _ _ _ hle (hm'.2 b hb)
+  · right
+    refine ⟨mx, l, hg, hmx, ?_⟩
+    intro S m' hS hm'
+    obtain ⟨b, hb, hle⟩ := hl S hS.1 hS.2
+    exact Diff.le_trans hle (hm'.2 b hb)
+
 /-! ### Non-vacuity: the concrete contest of `Props/C04.lean` -/
 
 def asnEx (w l _o t : Nat) : Nat := t * 1000 / (w - l)
